@@ -52,7 +52,7 @@ theorem streamKind_srec (s : St) (o sid : Nat) (args : List Text) (quit : List N
   simp only
   split
   · have h1 : SameSRec s (setS s o (match (getS s o).targetHost, rsplitColon (args.getD 3 []) with
-        | none, some (h, p) => { getS s o with targetHost := some h, targetPort := (natOf p).getD 0 }
+        | none, some (h, p) => { getS s o with targetHost := some (hostName s h), targetPort := (natOf p).getD 0 }
         | _, _ => getS s o)) := by
       apply SameSRec.setS
       split <;> rfl
@@ -217,14 +217,14 @@ theorem streamRecord_trec (s : St) (o sid : Nat) (args : List Text) : SameTRec s
   split <;> rfl
 
 /-- **C07, stream target.** `Stream.update` with a NEW / NEWRESOLVE / SUCCEEDED line sets the target host and port from the
-line when the stream has none yet (and never changes them afterwards); a REMAP line sets the target address; no other
+line when the stream has none yet (and never changes them afterwards) — the host under the name an ADDRMAP line gave it, if any; a REMAP line sets the target address; no other
 line, and nothing else in the update, touches the target of any stream. -/
 theorem C07_stream_target (s : St) (o sid : Nat) (args : List Text) (quit : List Nat) (ho : o < s.sobj.length)
     (hk : knownStreamState (args.getD 1 []) = true) :
     let st := args.getD 1 []
     let x := getS (streamUpdate s o sid args quit).1 o
     ((st = str "NEW" ∨ st = str "NEWRESOLVE" ∨ st = str "SUCCEEDED") → (getS s o).targetHost = none →
-      ∀ h p, rsplitColon (args.getD 3 []) = some (h, p) → x.targetHost = some h ∧ x.targetPort = (natOf p).getD 0) ∧
+      ∀ h p, rsplitColon (args.getD 3 []) = some (h, p) → x.targetHost = some (hostName s h) ∧ x.targetPort = (natOf p).getD 0) ∧
     ((getS s o).targetHost ≠ none → x.targetHost = (getS s o).targetHost ∧ x.targetPort = (getS s o).targetPort) ∧
     (st = str "REMAP" → x.targetAddr = (rsplitColon (args.getD 3 [])).map (·.1)) ∧
     (st ≠ str "REMAP" → x.targetAddr = (getS s o).targetAddr) ∧
@@ -233,11 +233,12 @@ theorem C07_stream_target (s : St) (o sid : Nat) (args : List Text) (quit : List
   -- after `streamRecord` the target is as before; `streamAttach` does not touch it either
   have h0 := streamRecord_trec s o sid args
   have ho1 : o < (streamRecord s o sid args).sobj.length := by rw [(streamRecord_same s o sid args).2.slen]; exact ho
-  generalize hs1 : streamRecord s o sid args = s1 at h0 ho1
+  have hnm : ∀ h, hostName (streamRecord s o sid args) h = hostName s h := fun _ => rfl
+  generalize hs1 : streamRecord s o sid args = s1 at h0 ho1 hnm
   have hkind : trec (getS (streamKind s1 o sid args quit).1 o) =
       (if args.getD 1 [] = str "NEW" ∨ args.getD 1 [] = str "NEWRESOLVE" ∨ args.getD 1 [] = str "SUCCEEDED" then
         (match (getS s1 o).targetHost, rsplitColon (args.getD 3 []) with
-          | none, some (h, p) => ⟨some h, (natOf p).getD 0, (getS s1 o).targetAddr⟩
+          | none, some (h, p) => ⟨some (hostName s1 h), (natOf p).getD 0, (getS s1 o).targetAddr⟩
           | _, _ => trec (getS s1 o))
        else if args.getD 1 [] = str "REMAP" then ⟨(getS s1 o).targetHost, (getS s1 o).targetPort, (rsplitColon (args.getD 3 [])).map (·.1)⟩
        else trec (getS s1 o)) ∧
@@ -307,7 +308,7 @@ theorem C07_stream_target (s : St) (o sid : Nat) (args : List Text) (quit : List
   refine ⟨?_, ?_, ?_, ?_, ?_⟩
   · intro hst hnone h p hrs
     rw [if_pos hst, hhost, hnone, hrs] at hx
-    exact ⟨congrArg TRec.host hx, congrArg TRec.port hx⟩
+    exact ⟨(congrArg TRec.host hx).trans (congrArg some (hnm h)), congrArg TRec.port hx⟩
   · intro hsome
     have hkeep : TRec.host (trec (getS (streamUpdate s o sid args quit).1 o)) = (getS s o).targetHost ∧
         TRec.port (trec (getS (streamUpdate s o sid args quit).1 o)) = (getS s o).targetPort := by
@@ -340,5 +341,165 @@ theorem C07_stream_target (s : St) (o sid : Nat) (args : List Text) (quit : List
   · intro so hso
     rw [hfin so, hkind.2 so hso]
     exact h0 so
+
+/-! ## names Tor's ADDRMAP lines give to addresses -/
+
+theorem find_filter_key (m : List (Text × Nat)) (p : Text × Nat → Bool) (k : Text) (h : ∀ e ∈ m, e.1 = k → p e = true) :
+    (m.filter p).find? (fun e => Decidable.decide (e.1 = k)) = m.find? (fun e => Decidable.decide (e.1 = k)) := by
+  induction m with
+  | nil => rfl
+  | cons a t ih =>
+    have iht := ih (fun e he => h e (List.mem_cons_of_mem _ he))
+    by_cases ha : a.1 = k
+    · have hp := h a List.mem_cons_self ha
+      rw [List.filter_cons, if_pos hp, List.find?_cons, List.find?_cons]
+      simp [ha]
+    · by_cases hp : p a = true
+      · rw [List.filter_cons, if_pos hp, List.find?_cons, List.find?_cons]
+        simp only [ha, decide_false]
+        exact iht
+      · rw [List.filter_cons, if_neg hp, List.find?_cons]
+        simp only [ha, decide_false]
+        exact iht
+
+theorem find_filter_none (m : List (Text × Nat)) (p : Text × Nat → Bool) (k : Text) (h : ∀ e ∈ m, e.1 = k → p e = false) :
+    (m.filter p).find? (fun e => Decidable.decide (e.1 = k)) = none := by
+  rw [List.find?_eq_none]
+  intro x hx
+  obtain ⟨hm, hp⟩ := List.mem_filter.mp hx
+  intro hk
+  have := h x hm (by simpa using hk)
+  rw [this] at hp
+  exact absurd hp (by decide)
+
+theorem tget_tset_self (m : List (Text × Nat)) (k : Text) (v : Nat) : tget (tset m k v) k = some v := by
+  unfold tget tset
+  rw [List.find?_append, find_filter_none m _ k (fun e _ hk => by simp [hk])]
+  simp
+
+theorem tget_tset_ne (m : List (Text × Nat)) (k k' : Text) (v : Nat) (h : k' ≠ k) : tget (tset m k v) k' = tget m k' := by
+  unfold tget tset
+  rw [List.find?_append, find_filter_key m _ k' (fun e _ hk => by simp [hk, h])]
+  have h1 : ([(k, v)] : List (Text × Nat)).find? (fun e => Decidable.decide (e.1 = k')) = none := by simp [Ne.symm h]
+  rw [h1]
+  simp
+
+/-- looking a key up after keys were filtered out by a predicate the key's own entries pass -/
+theorem tget_filter (m : List (Text × Nat)) (p : Text × Nat → Bool) (k : Text) (h : ∀ e ∈ m, e.1 = k → p e = true) :
+    tget (m.filter p) k = tget m k := by
+  unfold tget; rw [find_filter_key m p k h]
+
+theorem tget_filter_none (m : List (Text × Nat)) (p : Text × Nat → Bool) (k : Text) (h : ∀ e ∈ m, e.1 = k → p e = false) :
+    tget (m.filter p) k = none := by
+  unfold tget; rw [find_filter_none m p k h]; rfl
+
+/-- **an ADDRMAP line touches no circuit, no stream, no listener, sends nothing and completes nothing** -/
+theorem C07_addrmap_frame (s : St) (name ip : Text) :
+    (step s (.addrMap name ip)).2 = [] ∧ (step s (.addrMap name ip)).1.cobj = s.cobj ∧ (step s (.addrMap name ip)).1.sobj = s.sobj ∧
+    (step s (.addrMap name ip)).1.circuits = s.circuits ∧ (step s (.addrMap name ip)).1.streams = s.streams ∧
+    (step s (.addrMap name ip)).1.targets = s.targets ∧ (step s (.addrMap name ip)).1.attacher = s.attacher := by
+  refine ⟨rfl, ?_⟩
+  show (addrUpdate s name ip).cobj = _ ∧ (addrUpdate s name ip).sobj = _ ∧ (addrUpdate s name ip).circuits = _ ∧
+    (addrUpdate s name ip).streams = _ ∧ (addrUpdate s name ip).targets = _ ∧ (addrUpdate s name ip).attacher = _
+  unfold addrUpdate
+  split <;> split <;> exact ⟨rfl, rfl, rfl, rfl, rfl, rfl⟩
+
+/-- **a name Tor had not mentioned**: from now on both the name and the address stand for that name; every other key means
+what it meant before -/
+theorem C07_addrmap_new (s : St) (name ip : Text) (hn : tget s.amap name = none) (he : ip ≠ str "<error>") :
+    hostName (step s (.addrMap name ip)).1 name = name ∧ hostName (step s (.addrMap name ip)).1 ip = name ∧
+    (∀ k, k ≠ name → k ≠ ip → tget (step s (.addrMap name ip)).1.amap k = tget s.amap k) ∧
+    (∀ r, r < s.anames.length → (step s (.addrMap name ip)).1.anames[r]? = s.anames[r]?) := by
+  have hs : (step s (.addrMap name ip)).1 =
+      { s with amap := tset (tset s.amap name s.anames.length) ip s.anames.length, anames := s.anames ++ [name] } := by
+    show addrUpdate s name ip = _
+    unfold addrUpdate
+    rw [hn]; simp only; rw [if_neg he]
+  rw [hs]
+  refine ⟨?_, ?_, ?_, ?_⟩
+  · unfold hostName
+    by_cases h : name = ip
+    · subst h; simp [tget_tset_self]
+    · simp [tget_tset_ne _ _ _ _ h, tget_tset_self]
+  · unfold hostName; simp [tget_tset_self]
+  · intro k h1 h2; show tget (tset (tset s.amap name _) ip _) k = _; rw [tget_tset_ne _ _ _ _ h2, tget_tset_ne _ _ _ _ h1]
+  · intro r hr; show (s.anames ++ [name])[r]? = _; exact List.getElem?_append_left hr
+
+/-- **a name Tor re-maps**: the new address stands for the name, the name still does, whatever else stood for this mapping
+(its previous address) no longer does, and the keys of every other mapping mean what they meant -/
+theorem C07_addrmap_move (s : St) (name ip : Text) (r : Nat) (hn : tget s.amap name = some r) (hr : r < s.anames.length)
+    (he : ip ≠ str "<error>") :
+    hostName (step s (.addrMap name ip)).1 name = name ∧ hostName (step s (.addrMap name ip)).1 ip = name ∧
+    (∀ k, k ≠ name → k ≠ ip → tget s.amap k = some r → tget (step s (.addrMap name ip)).1.amap k = none) ∧
+    (∀ k r', k ≠ ip → tget s.amap k = some r' → r' ≠ r → tget (step s (.addrMap name ip)).1.amap k = some r') := by
+  have hs : (step s (.addrMap name ip)).1 =
+      { s with amap := tset (s.amap.filter fun e => !(tget s.amap e.1 = some r && e.1 ≠ name)) ip r, anames := s.anames.set r name } := by
+    show addrUpdate s name ip = _
+    unfold addrUpdate
+    rw [hn]; simp only; rw [if_neg he]
+  rw [hs]
+  have hkeep : tget (s.amap.filter fun e => !(Decidable.decide (tget s.amap e.1 = some r) && Decidable.decide (e.1 ≠ name))) name = some r := by
+    rw [tget_filter _ _ _ (fun e _ hk => by simp [hk])]; exact hn
+  have hnm : (s.anames.set r name)[r]?.getD name = name := by simp [hr]
+  refine ⟨?_, ?_, ?_, ?_⟩
+  · unfold hostName
+    show (match tget (tset _ ip r) name with | some r' => (s.anames.set r name).getD r' name | none => name) = name
+    by_cases h : name = ip
+    · subst h; rw [tget_tset_self]; simp [hr]
+    · rw [tget_tset_ne _ _ _ _ h, hkeep]; simp [hr]
+  · unfold hostName
+    show (match tget (tset _ ip r) ip with | some r' => (s.anames.set r name).getD r' ip | none => ip) = name
+    rw [tget_tset_self]; simp [hr]
+  · intro k h1 h2 hk
+    show tget (tset _ ip r) k = none
+    rw [tget_tset_ne _ _ _ _ h2]
+    exact tget_filter_none _ _ _ (fun e _ hek => by simp [hek, hk, h1])
+  · intro k r' h2 hk hne
+    show tget (tset _ ip r) k = some r'
+    rw [tget_tset_ne _ _ _ _ h2, tget_filter _ _ _ (fun e _ hek => by simp [hek, hk, hne])]
+    exact hk
+
+/-- **`<error>` for a known name**: nothing stands for that mapping any more; every other mapping is as it was -/
+theorem C07_addrmap_error (s : St) (name : Text) (r : Nat) (hn : tget s.amap name = some r) :
+    (∀ k, tget s.amap k = some r → tget (step s (.addrMap name (str "<error>"))).1.amap k = none) ∧
+    (∀ k r', tget s.amap k = some r' → r' ≠ r → tget (step s (.addrMap name (str "<error>"))).1.amap k = some r') ∧
+    (∀ k, tget s.amap k = none → tget (step s (.addrMap name (str "<error>"))).1.amap k = none) := by
+  have hs : (step s (.addrMap name (str "<error>"))).1 =
+      { s with amap := s.amap.filter fun e => tget s.amap e.1 ≠ some r, anames := s.anames.set r name } := by
+    show addrUpdate s name _ = _
+    unfold addrUpdate
+    rw [hn]; simp only; rw [if_pos trivial]
+  rw [hs]
+  refine ⟨?_, ?_, ?_⟩
+  · intro k hk
+    exact tget_filter_none _ _ _ (fun e _ hek => by simp [hek, hk])
+  · intro k r' hk hne
+    show tget (s.amap.filter _) k = _
+    rw [tget_filter _ _ _ (fun e _ hek => by simp [hek, hk, hne])]
+    exact hk
+  · intro k hk
+    show tget (s.amap.filter _) k = _
+    rw [tget_filter _ _ _ (fun e _ hek => by simp [hek, hk])]
+    exact hk
+
+/-- `<error>` for a name Tor never mapped changes nothing -/
+theorem C07_addrmap_error_unknown (s : St) (name : Text) (hn : tget s.amap name = none) :
+    step s (.addrMap name (str "<error>")) = (s, []) := by
+  simp [TxV.TorState.step, addrUpdate, hn]
+
+/-- a host no ADDRMAP line mentioned keeps the name Tor reported -/
+theorem C07_host_unmapped (s : St) (h : Text) (hn : tget s.amap h = none) : hostName s h = h := by
+  simp [hostName, hn]
+
+/-- `10.0.0.5` is given the name `example.com`; a stream to `10.0.0.5:80` is listed with that name; the name then moves to another
+address, and a stream to the old address keeps the address -/
+example :
+    let s := run {} [.addrMap (str "example.com") (str "10.0.0.5"),
+      .strm [str "7", str "NEW", str "0", str "10.0.0.5:80", str "SOURCE_ADDR=127.0.0.1:40001", str "PURPOSE=USER"] [] none,
+      .addrMap (str "example.com") (str "10.0.0.6"),
+      .strm [str "8", str "NEW", str "0", str "10.0.0.5:80", str "SOURCE_ADDR=127.0.0.1:40002", str "PURPOSE=USER"] [] none,
+      .strm [str "9", str "NEW", str "0", str "10.0.0.6:80", str "SOURCE_ADDR=127.0.0.1:40003", str "PURPOSE=USER"] [] none]
+    (getS s 0).targetHost = some (str "example.com") ∧ (getS s 1).targetHost = some (str "10.0.0.5") ∧
+    (getS s 2).targetHost = some (str "example.com") := by decide +kernel
 
 end TxV.Props.C07
